@@ -220,9 +220,10 @@ class SiteEvaluator:
             pass
         return table
 
-    def evaluate(self, b, param, parent_kind, sequence=None, max_steps=250000):
-        """run converter b with its node parameter bound to a node of kind parent_kind; returns (outcomes, whole-function results)"""
-        key = (b.id, parent_kind, None if sequence is None else tuple(sequence))
+    def evaluate(self, b, param, parent_kind, sequence=None, max_steps=250000, ctx_mode=None, param_val=None):
+        """run converter b with its node parameter bound to a node of kind parent_kind; returns (outcomes, whole-function results).
+        ctx_mode: evaluate with a Context of that mode (the Context methods are then entered, so that mode changes are tracked)"""
+        key = (b.id, parent_kind, None if sequence is None else tuple(sequence), ctx_mode, param_val is not None)
         if key in self._cache:
             return self._cache[key]
         ip = Interp(self.w, max_depth=12, max_paths=self.max_paths, max_steps=max_steps)
@@ -250,13 +251,15 @@ class SiteEvaluator:
             kinds = loop_kinds_override(b.short, f.body.short, depth, isinstance(recv, Agg) and recv.adt == 'children-of', kinds)
             return child_items(kinds, depth)
         ip.loop_items_cb = items
-        ip.no_inline = lambda tb: (tb.short.endswith('::print_doc') or tb.short.endswith('collect_markup_repr') or 'context::{impl#' in tb.short
+        ip.no_inline = lambda tb: (tb.short.endswith('::print_doc') or tb.short.endswith('collect_markup_repr') or ('context::{impl#' in tb.short and ctx_mode is None)
                                    or 'get_fold_style' in tb.short or tb.short.startswith('attr::') or tb.short.endswith('has_comment_children')) and tb.id != b.id
         m = Machine()
         cells = {}
         for i in range(1, b.arg_count + 1):
             cells[i] = Cell('p%d' % i)
-        cells[param].val = Node('parent', parent_kind)
+            if ctx_mode is not None and b.locals[i]['ty']['s'].endswith('context::Context'):
+                cells[i].val = context(ctx_mode, None)
+        cells[param].val = param_val if param_val is not None else Node('parent', parent_kind)
         m.frames.append(Frame(b, cells))
         outcomes, wholes = [], []
         try:
@@ -278,7 +281,7 @@ class SiteEvaluator:
                 for e in evs:
                     if e[0] == 'make':
                         seq.append(('make', e[1]))
-                    elif e[0] == 'convert':
+                    elif e[0] in ('convert', 'unqueue', 'rec'):
                         continue
                     else:
                         for x in e[1:]:
@@ -288,7 +291,7 @@ class SiteEvaluator:
                                         atoms=event_atoms(evs), pushed=pushed_nodes(evs), made=made(evs), seq=seq,
                                         stores=[(e[1], freeze(e[2])) for e in evs if e[0] == 'store'],
                                         converts=[(e[1], freeze(e[2]), e[3], e[4]) for e in evs if e[0] == 'convert'],
-                                        assumed=list(r.assumed[-12:]), trace=[], result=freeze(getattr(r, 'result', None)),
+                                        assumed=list(r.assumed[-12:] if ctx_mode is None else r.assumed), trace=[], result=freeze(getattr(r, 'result', None)),
                                         status=r.outcome or ('return' if hasattr(r, 'result') else 'open')))
             else:
                 if hasattr(r, 'result'):
@@ -316,7 +319,7 @@ def atoms_of(v):
 def event_atoms(events):
     out = []
     for e in events:
-        if e[0] in ('make', 'convert'):
+        if e[0] in ('make', 'convert', 'unqueue', 'rec'):
             continue
         for x in e[1:]:
             out += atoms_of(x)
@@ -401,7 +404,7 @@ def context(mode=None, suppressed=None):
     return Agg('typstyle_core::pretty::context::Context', None, [md, TOP if suppressed is None else Const(suppressed)])
 
 
-def evaluate_sequence(w, b, param, parent_kind, seq, no_inline=None, max_paths=4000):
+def evaluate_sequence(w, b, param, parent_kind, seq, no_inline=None, max_paths=4000, ctx=None, extra=None, hooks=None, with_wholes=False):
     """evaluate consecutive iterations <seq[0], seq[1], ..> of every loop over syntax nodes in converter b (state carried
     from one iteration to the next, all other state unknown); returns [(loop, [events of step 0], [events of step 1], ..)]"""
     ip = Interp(w, max_depth=12, max_paths=max_paths, max_steps=200000)
@@ -418,6 +421,14 @@ def evaluate_sequence(w, b, param, parent_kind, seq, no_inline=None, max_paths=4
     m = Machine()
     cells = {i: Cell('p%d' % i) for i in range(1, b.arg_count + 1)}
     cells[param].val = Node('parent', parent_kind)
+    if ctx is not None:
+        for i in range(1, b.arg_count + 1):
+            if b.locals[i]['ty']['s'].endswith('context::Context'):
+                cells[i].val = ctx
+    for i, val in (extra or {}).items():
+        cells[i].val = val
+    for name, h in (hooks or {}).items():
+        ip.hooks[name] = h
     m.frames.append(Frame(b, cells))
     try:
         res = ip.run(m)
@@ -425,6 +436,9 @@ def evaluate_sequence(w, b, param, parent_kind, seq, no_inline=None, max_paths=4
         return None
     out = []
     for r in res:
+        if with_wholes and not r.iter and hasattr(r, 'result'):
+            out.append((None, [list(r.events)], list(r.assumed), []))
+            continue
         if not r.iter or r.outcome != 'iteration-complete':
             continue
         top = r.iter[-1]
@@ -432,5 +446,8 @@ def evaluate_sequence(w, b, param, parent_kind, seq, no_inline=None, max_paths=4
             continue
         marks = [top['ev_start']] + top.get('marks', []) + [len(r.events)]
         steps = [r.events[marks[i]:marks[i + 1]] for i in range(len(marks) - 1)]
-        out.append(((top['fn'], top['bb']), steps, list(r.assumed)))
+        if with_wholes:
+            out.append(((top['fn'], top['bb']), steps, list(r.assumed), top.get('seq_items') or [top['item']]))
+        else:
+            out.append(((top['fn'], top['bb']), steps, list(r.assumed)))
     return out
